@@ -44,7 +44,10 @@ Cat == <<
   E("oi", "value", "B", "int", 10),   E("oi", "max", "P", "int", 120),    E("oc", "visibility", "P", "int", 4),
   \* required values: only a default given / a constant given / limits only
   E("r1", "default", "P", "int", 6),  E("r2", "default", "P", "int", 8),  E("n", "default", "P", "int", 8),
-  E("r1", "constant", "P", "int", 6), E("r2", "max", "P", "int", 120) >>
+  E("r1", "constant", "P", "int", 6), E("r2", "max", "P", "int", 120),
+  \* parameters written by a common hardware function / a write method that takes a sibling along
+  E("g1", "value", "B", "int", 20),   E("g2", "value", "P", "int", 40),   E("h1", "value", "B", "int", 60),
+  E("h2", "value", "B", "float", 81) >>
 BaseEntries == {E("mp", "value", "B", "int", 6), E("n", "value", "B", "int", 10),
                 E("r1", "value", "B", "int", 4), E("r2", "value", "P", "int", 6)}
 Required == {"mp", "n", "r1", "r2"}
